@@ -191,11 +191,17 @@ def impl_aggregate(case):
     prog = node(nodes[0], [node(n) for n in nodes[1:]])
     prog["linked_params"] = [{"source": "N", "targets": [f"{n['name']}.N" for n in nodes[1:]]},
                              {"source": "eps", "targets": [f"{n['name']}.eps" for n in nodes[1:]]}] if len(nodes) > 1 else []
-    c = compile_routine({"version": "v1", "program": prog}).routine
     d = {a: {b: (to_str(m)) for b, m in mp} for a, mp in case["dict"]}
     import copy
     snapshot = copy.deepcopy(d)
-    out = add_aggregated_resources(c, d, remove_decomposed=case["remove"])
+    if case.get("via_stage"):
+        # the same rewrite requested as a post-processing stage of compile_routine
+        from bartiq.compilation.postprocessing import aggregate_resources
+        out = compile_routine({"version": "v1", "program": prog},
+                              postprocessing_stages=[aggregate_resources(d, remove_decomposed=case["remove"])]).routine
+    else:
+        c = compile_routine({"version": "v1", "program": prog}).routine
+        out = add_aggregated_resources(c, d, remove_decomposed=case["remove"])
     flags = {"inexact": False}
     trees = [out] + [out.children[n["name"]] for n in nodes[1:]]
     res = []
@@ -415,6 +421,15 @@ def impl_repro(case):
     snap = pickle.dumps(res1.routine)
     exp1b = res1.to_qref().model_dump_json()
     out["export_pure"] = pickle.dumps(res1.routine) == snap and exp1b == exp1
+    # what the caller does to a document it was handed must not show up in the next export of the same result
+    handed = res1.to_qref()
+    try:
+        handed.program.name = "edited_by_caller"
+        handed.program.resources = []
+        handed.program.ports = []
+    except Exception:
+        pass
+    out["export_pure"] = out["export_pure"] and res1.to_qref().model_dump_json() == exp1
     # evaluate
     params = list(res1.routine.input_params)
     assign = {p: (i % 3) + 1 for i, p in enumerate(params)}
@@ -422,6 +437,15 @@ def impl_repro(case):
     try:
         e1 = evaluate(res1.routine, assign)
         e2 = evaluate(res1.routine, assign)
+        first = e1.to_qref().model_dump_json()
+        handed = e1.to_qref()
+        try:
+            handed.program.name = "edited_by_caller"
+            handed.program.resources = []
+        except Exception:
+            pass
+        if e1.to_qref().model_dump_json() != first:
+            out["export_pure"] = False
         out["evaluate_pure"] = pickle.dumps(res1.routine) == snap and assign == a_before
         out["evaluate_repeatable"] = e1.routine == e2.routine
         out["eval_sha"] = hashlib.sha256(e1.to_qref().model_dump_json().encode()).hexdigest()
